@@ -5,6 +5,18 @@ props=[json.loads(l) for l in open('/verif/properties.jsonl')]
 ENV="GOFLAGS=-mod=mod GOPROXY=off GOSUMDB=off GOTOOLCHAIN=local"
 TECH="bounded symbolic execution of the real Go code (go/ssa -> SMT-LIB2 bit-vector encoding written for this task), decided by SMT solvers (z3 5.1.0 / z3 4.8.12 / cvc5), counterexamples replayed natively"
 claimed = {
+ "C02": dict(
+   text="Crash-freedom clause (last sentence) plus the structural part of the derivation: populateExpectedResponse (unary and stream variants, real SSA) for every stream type 0..6, 0..3 request messages of any of the 4 request types or undecodable, response definition present or not, 0..3 response_data items, error present or not: no reachable panic, error-or-expectation, one payload per response item in order, request echo per stream type (full-duplex ping-pong, including more responses than requests).",
+   note="The agreement clause (derived expectation == what the reference peers produce) needs the whole RPC stack and is outside the claim (same reason as C01); Any (un)marshalling is a table-lookup stub in the engine and real natively; expandRequestData's crash freedom is covered by the C19 harness.",
+   ref="7 (C02)"),
+ "C12": dict(
+   text="Bounded model checking of the reference server's request checks: (a) extractTimeout for both protocols: case split on digit count (1..11 / 1..9) and unit, all digits symbolic: accepted iff within the digit limit with a known unit, exact product with saturation on int64 overflow (hours), header removed, feedback iff rejected; (b) checkHTTPVersion/Protocol/Codec/Compression/TLS on the request of a conformant client over the full expected x actual matrix: feedback iff the aspect differs, naming the test case.",
+   note="int64(Duration.Hours()) etc. use an integer summary of the float computation (justified by a separate FP lemma, DESIGN.md section 4); leading signs and redundant leading zeros are outside the claim (the specs count digits, the code compares values); the middleware closure (duplicate request, trailers, missing name) is not encoded.",
+   ref="7 (C12)"),
+ "C19": dict(
+   text="Padding clause: expandRequestData on the wire-size model size(n) = other + (n=0 ? 0 : 1+varint(n)+n): for every initial padding length < 2^22, every int32 offset and other-size 0/4..40: no reachable panic, on success the size is exactly limit+offset and only the padding changed, at most two adjustments; for typical directives an error means the size is unreachable. One genuine deviation (reachable sizes rejected when a third adjustment would be needed) is recorded as a known finding.",
+   note="Protobuf reflection / proto.Size / Any are replaced by the size model in the engine (natively the real code runs on a real UnaryRequest with the same sizes); padding bytes are length-abstracted; sharpness of the limit inside connect-go/grpc-go (second sentence) is outside the claim.",
+   ref="7 (C19)"),
  "C03": dict(
    text="Bounded model checking of the real comparison code in results.go: comma-joining laws of canonicalizeHeaderVals (strings <=3 bytes), checkHeaders against a set-theoretic reference (<=2 headers per side, mixed-case names, joined/split values), checkError against the documented table (<=2 details per side, every position), the echoed-timeout window for all int64 values, and assert() with the header/trailer merging leniency and HTTP status rule - each as an iff between 'no discrepancy reported' and the reference predicate.",
    note="String alphabets are small constant sets; anypb/protocmp are contract stubs (equal iff type URL and bytes equal), natively replaced by real messages; discrepancy texts are not checked; payload/request-echo comparison (checkPayloads bytes, request round trip) not covered yet.",
